@@ -66,6 +66,9 @@ func bigToIP(v *big.Int, n int) net.IP {
 	return r
 }
 
+var decoys []allocators.Allocator // kept alive on purpose
+var decoyMu sync.Mutex
+
 func geomV4(start, end string) geom {
 	s, e := net.ParseIP(start), net.ParseIP(end)
 	sb, eb := ipToBig(s, "v4"), ipToBig(e, "v4")
@@ -91,7 +94,22 @@ func geomV6(pool string, page int) geom {
 			if err != nil {
 				return nil, err
 			}
-			return bitmap.NewBitmapAllocator(*fresh, page)
+			a, err := bitmap.NewBitmapAllocator(*fresh, page)
+			// a second allocator of ANOTHER allocation length comes to life right afterwards and stays unused (a server
+			// with two pools): what an allocator knows about its own geometry must be its own
+			_, other, _ := net.ParseCIDR("2001:db8:dec0::/48")
+			decoyPage := 64
+			if page == 64 {
+				decoyPage = 56
+			}
+			decoyMu.Lock()
+			d, _ := bitmap.NewBitmapAllocator(*other, decoyPage)
+			decoys = append(decoys, d)
+			if len(decoys) > 4 {
+				decoys = decoys[1:]
+			}
+			decoyMu.Unlock()
+			return a, err
 		}}
 }
 
